@@ -8,6 +8,8 @@ Areas (harness go/cmd/c02):
         real code vs Lean model, line by line (floats as IEEE bit patterns, strings as hex bytes)
   f64   `f64op <op> <bits> <bits>`: the binary64 model itself vs the hardware (add sub mul div math.Mod neg
         float64(uint64) float64(int64) uint64(f) int64(f) comparisons Nextafter-toward-zero)
+  (conv also carries `comps` = FromComponents / Components / IsZero against the white-box words and `i abs` =
+        AbsUint128; the conv lines and the glue oracle are repeated on a GOARCH=386 build for the 32-bit big.Word branches)
   glue  implementation-side identity oracle: fmt verbs, encoding/json, yaml.v3, MarshalText, Scan, AsBigFloat against
         math/big renderings of the same value (no Lean model); every rendering of Format (verbs d b o O x X with
         the flags # + space, zero padding, width, precision; v s and the bad verbs) is scanned back: with the verb it
@@ -19,9 +21,13 @@ Areas (harness go/cmd/c02):
         token that must stay readable)
 """
 
+import os
 import re
+import subprocess
 
-OVERLAY = {"xmath/num/verif_c02.go": "c02_consts.go"}
+from vlib import core
+
+OVERLAY = {"xmath/num/verif_c02.go": "c02_consts.go", "xmath/num/verif_c02w.go": "c02_words.go"}
 _CONSTS = re.compile(r"^([0-9a-f]{16} ){5}[0-9a-f]{16}$")
 
 
@@ -31,6 +37,40 @@ def _canon_no_consts(out):
     if out == "consts-unavailable" or _CONSTS.match(out):
         return "consts-not-compared"
     return out
+
+
+def _build386(ctx):
+    """Extra harness for the 32-bit big.Word branches of ToBigInt / FromBigInt (intSize == 32): the same harness built
+    with GOARCH=386 (pure Go, runs on the amd64 kernel).  Not being able to build or run it is recorded, not judged."""
+    if "harness" not in ctx.harness_bin:
+        return False
+    out = os.path.join(ctx.work, "harness386")
+    env = core.env_go()
+    env["GOARCH"] = "386"
+    env["CGO_ENABLED"] = "0"
+    tags = "verif"
+    cmd = ["go", "build", "-modfile=" + ctx._gomod(), "-o", out]
+    if ctx.extra.get("overlay_fallback"):
+        tags += " nooverlay"
+    else:
+        cmd += ["-overlay", os.path.join(ctx.work, "overlay.json")]
+    cmd += ["-tags", tags, "./cmd/c02"]
+    rc, o = core.sh(cmd, cwd=core.GO, env=env, timeout=900)
+    if rc != 0:
+        ctx.extra["goarch386"] = "not built: " + (o.strip().splitlines()[-1][:200] if o.strip() else "?")
+        return False
+    try:
+        p = subprocess.run([out, "run", "conv"], input="u comps 0000000000000001:0000000000000002\n", stdout=subprocess.PIPE,
+                           stderr=subprocess.PIPE, text=True, timeout=30)
+        ok = p.returncode == 0 and p.stdout.startswith("0000000000000001:0000000000000002")
+    except (OSError, subprocess.TimeoutExpired):
+        ok = False
+    if not ok:
+        ctx.extra["goarch386"] = "built, but a 32-bit executable does not run here"
+        return False
+    ctx.harness_bin["h386"] = out
+    ctx.extra["goarch386"] = "built and run: conv tie lines and the glue oracle repeated on a GOARCH=386 build"
+    return True
 
 
 def _tag(line, out):
@@ -49,8 +89,10 @@ def run(ctx):
     ctx.modelled += [
         "GoSem.F64 (binary64 as exact rationals rounded once per operation) is validated against the hardware by the "
         "f64 area of this check; math.Mod and math.Nextafter are modelled by their mathematical definition",
-        "math/big is modelled mathematically: big.Int = Int, len(v.Bits()) = number of 64-bit words of |v| (64-bit "
-        "big.Word only; the intSize == 32 branches are not modelled); big.Int.SetString(s, 0) and big.Rat.SetString "
+        "math/big is modelled mathematically: big.Int = Int, len(v.Bits()) = number of 64-bit words of |v| (the model "
+        "is of the 64-bit big.Word branches; the intSize == 32 branches compute the same mathematical function and are "
+        "compared with the same model and the same oracle on a GOARCH=386 build of the harness when it can be built "
+        "and run, see coverage.goarch386); big.Int.SetString(s, 0) and big.Rat.SetString "
         "are transcribed from go1.24.2 math/big (natconv.go, ratconv.go) as scanners on bytes",
         "String/MarshalText/MarshalJSON/MarshalYAML: decimal digit generation (strconv.FormatUint, big.Int.String) is "
         "modelled by Conv.natDigits; fmt.Formatter, encoding/json and yaml.v3 plumbing is covered by the "
@@ -59,6 +101,9 @@ def run(ctx):
         "the area `scan` (tokenisation itself is fmt's)",
         "the float range constants of package num are read through a `//go:build verif` accessor injected by -overlay "
         "(go/overlay/c02_consts.go) and compared with the model's constants (line `consts`); /repo is not modified",
+        "values are built from and read back as their two words through injected accessors (go/overlay/c02_words.go; "
+        "memory layout under the nooverlay fallback), never through num.*FromComponents / Components, which are "
+        "themselves compared (op `comps`); the oracles judge with math/big and the words only",
         "AsFloat64 (sign and one-ulp clauses) is proved for all 2^128 values of both types over GoSem.F64: the three "
         "roundings float64(hi), float64(lo), sum (nearest, ties to even; the product by 2^64 is exact) give a normal "
         "float m*2^e with the value's sign and |m*2^e - x| <= one unit in the last place, under both readings of the "
@@ -87,18 +132,29 @@ def run(ctx):
         canon = _canon_no_consts
         ctx.assumptions.append("the white-box accessor for the private float constants did not compile against this "
                                "tree; the `consts` line is not compared (black-box build, tag nooverlay)")
+    tmo = 300 if ctx.tier == "quick" else 900   # a looping mutant is answered `hang` after 20 s per line by the harness
     ctx.diff(area="conv", driver="drv_c02", n={"quick": 200000, "thorough": 6000000},
-             trivial=lambda l, o: l == "consts" and canon is not None, tagger=_tag, canon=canon,
+             trivial=lambda l, o: l == "consts" and canon is not None, tagger=_tag, canon=canon, timeout=tmo,
              theorem="C02.* (model = specification: exact value, truncation, saturation, grammar); impl != model on "
                      "this input")
     ctx.diff(area="f64", driver="drv_c02", n={"quick": 120000, "thorough": 5000000},
-             trivial=lambda l, o: False, tagger=_tag,
+             trivial=lambda l, o: False, tagger=_tag, timeout=tmo,
              theorem="the binary64 model GoSem.F64 differs from the hardware on this operation",
              what="validation of the float model that the C02 float theorems are stated over")
-    ctx.diff(area="scan", driver="drv_c02", n={"quick": 60000, "thorough": 1500000},
+    ctx.diff(area="scan", driver="drv_c02", n={"quick": 60000, "thorough": 1500000}, timeout=tmo,
              trivial=lambda l, o: False, tagger=lambda l, o: "scan." + (l.split(" ")[2] if len(l.split(" ")) > 2 else "?") + (".ok" if o.startswith("ok") else ".err"),
              theorem="C02.scan_reads_back_* / fromString_spec (model = grammar); Scan reads one blank-delimited token and "
                      "must give FromString (scanText token verb); impl != model on this input",
              what="fmt.Scanner entry points Sscan/Sscanf/Sscanln/Fscan/Fscanf vs the model's fromString of the token")
-    ctx.impl_oracle("glue", n={"quick": 1500, "thorough": 40000},
-                    label="fmt/json/yaml/text/Scan/big.Float renderings equal math/big's and load back identically")
+    ctx.impl_oracle("glue", n={"quick": 1000, "thorough": 40000}, timeout=tmo,
+                    label="fmt/json/yaml/text/Scan/big.Float renderings equal math/big's and load back identically; "
+                          "reused destinations, reused receivers, callback outcomes, pre-filled containers")
+    if _build386(ctx):
+        ctx.diff(area="conv", driver="drv_c02", name="h386", n={"quick": 30000, "thorough": 600000}, timeout=tmo,
+                 trivial=lambda l, o: l == "consts" and canon is not None, tagger=lambda l, o: "386." + (_tag(l, o) or "?"),
+                 canon=canon, shards=2 if ctx.tier == "quick" else None,
+                 theorem="C02.* on a GOARCH=386 build (32-bit big.Word branches of ToBigInt / FromBigInt); impl != model "
+                         "on this input",
+                 what="same tie lines, harness built with GOARCH=386")
+        ctx.impl_oracle("glue", n={"quick": 300, "thorough": 8000}, name="h386", timeout=tmo,
+                        label="glue oracle on a GOARCH=386 build (32-bit big.Word branches)")
